@@ -396,8 +396,8 @@ use super::*;
     rm.props_all = ["C04", "C02"] if fun else ["C12"]
     rm.closure("|m|", params="|m: &raw::Member|", ret="o: Ordering",
                spec="ensures o == member_cmp(self.string_bytes@, *m, method@)" if fun else "")
-    rm.closure("|member|", params="|member: &raw::Member|", ret="b: bool",
-               spec="ensures b == (member.original_name_offset == first.original_name_offset)")
+    if "|member|" in rm.orig:
+        rm.closure("|member|", params="|member: &raw::Member|", ret="b: bool", spec="ensures b == ({body})")
     rm.body_start(STR_ORD)
     if fun:
         rm.contract("""    requires wf_cache(*self),
@@ -438,23 +438,45 @@ use super::*;
             assert(matching_members@[0] == ms[p]);
         }
 """)
-        rm.after_stmt("let first = iter.next()", """        proof { assert(*first == ms[p]); assert(forall|j: int| 0 <= j < iter.remaining().len() ==> *#[trigger] iter.remaining()[j] == ms[p + 1 + j]); }
-        let ghost rem1 = iter.remaining();
+        # optional hint (only when the code has the shape `let first = <it>.next()...`): ties the iterator to the block
+        import re as _re2
+        mfirst = _re2.search(r"let first = (\w+)\.next\(\)", rm.orig)
+        if mfirst:
+            itn = mfirst.group(1)
+            rm.insert_at(rm.stmt_extent(mfirst.start())[1], """
+        proof { assert(*first == ms[p]); assert(forall|j: int| 0 <= j < %s.remaining().len() ==> *#[trigger] %s.remaining()[j] == ms[p + 1 + j]); }
+        let ghost rem1 = %s.remaining();
+        proof { assert(rem1.len() == q - p - 1); }""" % (itn, itn, itn))
+            mall = _re2.search(r"let all_matching\s*=", rm.orig)
+            if mall:
+                rm.insert_at(rm.stmt_extent(mall.start())[1], """
+        proof {
+            if all_matching {
+                assert forall|k: int| p <= k < q implies (#[trigger] ms[k]).original_name_offset == ms[p].original_name_offset by {
+                    if k > p { assert(*rem1[k - p - 1] == ms[k]); }
+                }
+            } else {
+                let idx = rem1.len() - %s.remaining().len() - 1;
+                assert(*rem1[idx] == ms[p + 1 + idx]);
+                assert(ms[p + 1 + idx].original_name_offset != ms[p].original_name_offset);
+            }
+        }""" % itn)
+        rm.after_stmt("let all_matching =", """        proof {
+            /*@L:agreement_check_covers_every_entry_of_the_block:C04,C02*/ assert(*first == ms[p] && (all_matching <==>
+                forall|k: int| p <= k < q ==> (#[trigger] ms[k]).original_name_offset == ms[p].original_name_offset));
+        }
 """)
         rm.insert_before("return None;", """proof {
-                let idx = choose|idx: int| 0 <= idx < rem1.len() && rem1[idx].original_name_offset != first.original_name_offset;
-                assert(ms[p + 1 + idx] == *rem1[idx]);
-                assert(tbl(sb, ms[p + 1 + idx].obfuscated_name_offset) == Some(method@));
+                let k = choose|k: int| p <= k < q && (#[trigger] ms[k]).original_name_offset != ms[p].original_name_offset;
+                assert(tbl(sb, ms[k].obfuscated_name_offset) == Some(method@));
                 assert(tbl(sb, ms[p].obfuscated_name_offset) == Some(method@));
-                assert(tbl(sb, ms[p + 1 + idx].original_name_offset) != tbl(sb, ms[p].original_name_offset));
+                assert(tbl(sb, ms[k].original_name_offset) != tbl(sb, ms[p].original_name_offset));
             }
             """)
         rm.before_tail("""proof {
             assert(tbl(sb, ms[p].obfuscated_name_offset) == Some(method@));
             assert forall|k: int| 0 <= k < ms.len() && tbl(sb, (#[trigger] ms[k]).obfuscated_name_offset) == Some(method@)
-                implies tbl(sb, ms[k].original_name_offset) == Some(original_method@) by {
-                if k > p { assert(*rem1[k - p - 1] == ms[k]); }
-            }
+                implies tbl(sb, ms[k].original_name_offset) == Some(original_method@) by { }
         }
         """)
     else:
